@@ -242,6 +242,8 @@ pub fn next_solution<'a>(sn: Rc<RefCell<SolutionNode<'a>>>)
 
                     let mut sn_ref = sn.borrow_mut();
                     if !sn_ref.more_solutions { return None; };
+                    // Not has at most one solution, whether it succeeds or fails.
+                    sn_ref.more_solutions = false;
 
                     match &sn_ref.head_sn {
                         Some(head_sn) => {
@@ -249,7 +251,6 @@ pub fn next_solution<'a>(sn: Rc<RefCell<SolutionNode<'a>>>)
                             match solution {
                                 Some(_) => return None,
                                 None => {
-                                    sn_ref.more_solutions = false;
                                     return Some(Rc::clone(&sn_ref.ss));
                                 },
                             }
